@@ -112,7 +112,7 @@ func New(rt *rapid.T, o Opts) *Builder {
 	}
 	b := &Builder{rt: rt, O: o, Labels: map[string]int{}, defects: o.Defects}
 	if o.Defects > 0 {
-		kinds := []string{"kind", "shape", "enum", "exotic", "missing", "unexported", "ambiguous-case", "unknown-field", "ambiguous-automap", "ambiguous-method"}
+		kinds := []string{"kind", "shape", "enum", "exotic", "missing", "unexported", "ambiguous-case", "unknown-field", "ambiguous-automap", "ambiguous-method", "overlap"}
 		if len(o.DefectKinds) > 0 {
 			kinds = o.DefectKinds
 		}
@@ -656,13 +656,24 @@ func (b *Builder) namedStruct(depth int) (*spec.T, *spec.T) {
 	b.B.Types = append(b.B.Types, td)
 	var own *model.Method
 	var sm *spec.Method
-	if b.O.FieldSettings && (b.fieldDefect() || b.chance(60, "own-method")) {
+	twin := false
+	if b.O.FieldSettings && b.want("overlap") && b.chance(50, "overlap-twin") {
+		// field settings on the pointer twin: a by-value use of the pair would bypass them
+		b.defects--
+		b.label("defect:overlap-pointer-twin")
+		own, sm = b.declare(fmt.Sprintf("Conv%d", id), spec.Ptr(s), spec.Ptr(t))
+		twin = true
+	} else if b.O.FieldSettings && (b.fieldDefect() || b.chance(60, "own-method")) {
 		own, sm = b.declare(fmt.Sprintf("Conv%d", id), s, t)
 	}
 	b.stack = append(b.stack, openPair{s, t})
 	fs, ft := b.fields(depth, own, sd)
 	b.stack = b.stack[:len(b.stack)-1]
 	sd.U, td.U = spec.Struct(fs...), spec.Struct(ft...)
+	if twin && len(own.Fields) == 0 && len(own.AutoMap) == 0 && own.FieldLines == 0 && len(ft) > 0 {
+		// the twin must carry at least one field setting for the overlap rule to apply
+		own.Fields[ft[0].Name] = &model.FieldCfg{Ignore: true}
+	}
 	if own != nil {
 		b.finishMethod(own, sm)
 	}
